@@ -1,13 +1,26 @@
 (* C02.v — Set stays strictly ordered, duplicate-free and equal to the mathematical set
    Statements only: every theorem is closed by [exact] of a lemma proved elsewhere, and its
-   axioms are printed.  Generated once by tools/mkprop.py from the proved lemmas' statements. *)
-From Verif Require Import Base Seq Coll SetProofs.
+   axioms are printed.  Generated once by tools/mkprop.py from the proved lemmas' statements. 
+   Round 2 (polish): an [Example] of non-vacuity beside every theorem (concrete states from SetProofs2.v,
+   hypotheses established by computation, conclusion obtained by applying the theorem), and the
+   C02_default_collator_* theorems: the same statements for the REAL default collator's ranking
+   [rkU M] on the universe [U M] (well-formed values within the depth limit M), where the hypothesis
+   [total_preorder] is discharged (CollateUse.rank_total_preorder_for_sets); and the C02_raw_default_*
+   theorems: the same for [Pool.rk_default] on RAW values — the ranking the pool model executes for a
+   Set with the default collator — under [Forall inUd] (inUd v := inU cmax v = true; SetTransfer.v). *)
+From Verif Require Import Base Seq Coll SetProofs Value CollateRank CollateUse SetProofs2 SetTransfer.
 
 Theorem C02_search_terminates_for_every_ranker :
   forall (A : Type) (zero : A) (rank : A -> A -> comparison) (l : list A) (v : A),
          exists (k : nat) (b : bool),
            find_index zero rank l v = Ret (k, b) /\ k <= length l /\ (b = true -> 1 <= k).
 Proof. exact find_index_returns. Qed.
+
+(* non-vacuity: inconsistent rankers (always Greater / always Lesser) still get a slot in 0..size *)
+Example C02_search_terminates_example :
+  find_index 0%Z (fun _ _ => Gt) ex_set 25%Z = Ret (4, false) /\
+  find_index 0%Z (fun _ _ => Lt) ex_set 25%Z = Ret (0, false).
+Proof. split; vm_compute; reflexivity. Qed.
 
 Theorem C02_search_found :
   forall (A : Type) (zero : A) (rank : A -> A -> comparison),
@@ -17,6 +30,17 @@ Theorem C02_search_found :
          find_index zero rank l v = Ret (k, true) ->
          1 <= k <= length l /\ rank v (nth (k - 1) l zero) = Eq.
 Proof. exact find_index_found. Qed.
+
+(* non-vacuity: ex_set = [5;17;31;48] under the coarse ranker x/10; 39 ranks equal to 31 (ordinal 3) *)
+Example C02_search_found_example :
+  total_preorder Z coarseZ /\ StrictSorted Z coarseZ ex_set /\
+  find_index 0%Z coarseZ ex_set 39%Z = Ret (3, true) /\
+  (1 <= 3 <= length ex_set /\ coarseZ 39%Z (nth (3 - 1) ex_set 0%Z) = Eq).
+Proof.
+  split; [exact coarseZ_total_preorder|]. split; [apply strict_sortedb_ok; vm_compute; reflexivity|].
+  split; [vm_compute; reflexivity|].
+  apply (C02_search_found Z 0%Z coarseZ coarseZ_total_preorder ex_set 39%Z 3 (strict_sortedb_ok Z coarseZ ex_set eq_refl)). vm_compute; reflexivity.
+Qed.
 
 Theorem C02_search_absent :
   forall (A : Type) (zero : A) (rank : A -> A -> comparison),
@@ -29,6 +53,19 @@ Theorem C02_search_absent :
          (forall j : nat, s <= j < length l -> rank v (nth j l zero) = Lt).
 Proof. exact find_index_absent. Qed.
 
+(* non-vacuity: 25 (class 2) is absent; the slot 2 separates the smaller from the larger members *)
+Example C02_search_absent_example :
+  total_preorder Z coarseZ /\ StrictSorted Z coarseZ ex_set /\
+  find_index 0%Z coarseZ ex_set 25%Z = Ret (2, false) /\
+  (2 <= length ex_set /\
+   (forall j : nat, j < 2 -> coarseZ (nth j ex_set 0%Z) 25%Z = Lt) /\
+   (forall j : nat, 2 <= j < length ex_set -> coarseZ 25%Z (nth j ex_set 0%Z) = Lt)).
+Proof.
+  split; [exact coarseZ_total_preorder|]. split; [apply strict_sortedb_ok; vm_compute; reflexivity|].
+  split; [vm_compute; reflexivity|].
+  apply (C02_search_absent Z 0%Z coarseZ coarseZ_total_preorder ex_set 25%Z 2 (strict_sortedb_ok Z coarseZ ex_set eq_refl)). vm_compute; reflexivity.
+Qed.
+
 Theorem C02_search_iff_member :
   forall (A : Type) (zero : A) (rank : A -> A -> comparison),
          total_preorder A rank ->
@@ -36,6 +73,20 @@ Theorem C02_search_iff_member :
          StrictSorted A rank l ->
          mem A rank v l <-> (exists k : nat, find_index zero rank l v = Ret (k, true)).
 Proof. exact find_index_iff_mem. Qed.
+
+Example C02_search_iff_member_example :
+  total_preorder Z coarseZ /\ StrictSorted Z coarseZ ex_set /\
+  mem Z coarseZ 39%Z ex_set /\ ~ mem Z coarseZ 25%Z ex_set /\
+  (exists k : nat, find_index 0%Z coarseZ ex_set 39%Z = Ret (k, true)) /\
+  ~ (exists k : nat, find_index 0%Z coarseZ ex_set 25%Z = Ret (k, true)).
+Proof.
+  split; [exact coarseZ_total_preorder|]. split; [apply strict_sortedb_ok; vm_compute; reflexivity|].
+  assert (M1 : mem Z coarseZ 39%Z ex_set) by (apply memb_ok; vm_compute; reflexivity).
+  assert (M2 : ~ mem Z coarseZ 25%Z ex_set) by (apply memb_false; vm_compute; reflexivity).
+  split; [exact M1|]. split; [exact M2|]. split.
+  - apply (C02_search_iff_member Z 0%Z coarseZ coarseZ_total_preorder ex_set 39%Z (strict_sortedb_ok Z coarseZ ex_set eq_refl)). exact M1.
+  - intros H. apply M2. apply (C02_search_iff_member Z 0%Z coarseZ coarseZ_total_preorder ex_set 25%Z (strict_sortedb_ok Z coarseZ ex_set eq_refl)). exact H.
+Qed.
 
 Theorem C02_add :
   forall (A : Type) (zero : A) (rank : A -> A -> comparison),
@@ -49,6 +100,21 @@ Theorem C02_add :
            (mem A rank v l -> l' = l) /\ (~ mem A rank v l -> Permutation.Permutation l' (v :: l)).
 Proof. exact set_add_spec. Qed.
 
+(* non-vacuity: adding 25 inserts it between 17 and 31; adding 12 (rank-equal to 17) changes nothing *)
+Example C02_add_example :
+  total_preorder Z coarseZ /\ StrictSorted Z coarseZ ex_set /\
+  set_add 0%Z coarseZ ex_set 25%Z = Ret [5; 17; 25; 31; 48]%Z /\
+  StrictSorted Z coarseZ [5; 17; 25; 31; 48]%Z /\
+  set_add 0%Z coarseZ ex_set 12%Z = Ret ex_set /\
+  (exists l' : list Z, set_add 0%Z coarseZ ex_set 25%Z = Ret l' /\ StrictSorted Z coarseZ l' /\
+     forall x : Z, mem Z coarseZ x l' <-> equiv Z coarseZ x 25%Z \/ mem Z coarseZ x ex_set).
+Proof.
+  split; [exact coarseZ_total_preorder|]. split; [apply strict_sortedb_ok; vm_compute; reflexivity|].
+  split; [vm_compute; reflexivity|]. split; [apply strict_sortedb_ok; vm_compute; reflexivity|]. split; [vm_compute; reflexivity|].
+  destruct (C02_add Z 0%Z coarseZ coarseZ_total_preorder ex_set 25%Z (strict_sortedb_ok Z coarseZ ex_set eq_refl)) as [l' [E [S [Mm _]]]].
+  exists l'. auto.
+Qed.
+
 Theorem C02_remove :
   forall (A : Type) (zero : A) (rank : A -> A -> comparison),
          total_preorder A rank ->
@@ -61,6 +127,20 @@ Theorem C02_remove :
            (forall y : A, In y l' -> In y l) /\ (~ mem A rank v l -> l' = l).
 Proof. exact set_remove_spec. Qed.
 
+(* non-vacuity: removing 12 deletes its rank-equal member 17; removing the absent 25 changes nothing *)
+Example C02_remove_example :
+  total_preorder Z coarseZ /\ StrictSorted Z coarseZ ex_set /\
+  set_remove 0%Z coarseZ ex_set 12%Z = Ret [5; 31; 48]%Z /\
+  set_remove 0%Z coarseZ ex_set 25%Z = Ret ex_set /\
+  (exists l' : list Z, set_remove 0%Z coarseZ ex_set 12%Z = Ret l' /\ StrictSorted Z coarseZ l' /\
+     forall x : Z, mem Z coarseZ x l' <-> mem Z coarseZ x ex_set /\ ~ equiv Z coarseZ x 12%Z).
+Proof.
+  split; [exact coarseZ_total_preorder|]. split; [apply strict_sortedb_ok; vm_compute; reflexivity|].
+  split; [vm_compute; reflexivity|]. split; [vm_compute; reflexivity|].
+  destruct (C02_remove Z 0%Z coarseZ coarseZ_total_preorder ex_set 12%Z (strict_sortedb_ok Z coarseZ ex_set eq_refl)) as [l' [E [S [Mm _]]]].
+  exists l'. auto.
+Qed.
+
 Theorem C02_equal_ranked_stored_once :
   forall (A : Type) (zero : A) (rank : A -> A -> comparison),
          total_preorder A rank ->
@@ -69,6 +149,14 @@ Theorem C02_equal_ranked_stored_once :
          i < length l -> j < length l -> rank (nth i l zero) (nth j l zero) = Eq -> i = j.
 Proof. exact strict_sorted_unique. Qed.
 
+Example C02_equal_ranked_stored_once_example :
+  total_preorder Z coarseZ /\ StrictSorted Z coarseZ ex_set /\
+  (forall i j : nat, i < 4 -> j < 4 -> coarseZ (nth i ex_set 0%Z) (nth j ex_set 0%Z) = Eq -> i = j).
+Proof.
+  split; [exact coarseZ_total_preorder|]. split; [apply strict_sortedb_ok; vm_compute; reflexivity|].
+  intros i j Hi Hj. apply (C02_equal_ranked_stored_once Z 0%Z coarseZ coarseZ_total_preorder ex_set i j (strict_sortedb_ok Z coarseZ ex_set eq_refl)); exact Hi || exact Hj.
+Qed.
+
 Theorem C02_every_history_strictly_ordered :
   forall (A : Type) (zero : A) (rank : A -> A -> comparison),
          total_preorder A rank ->
@@ -76,6 +164,21 @@ Theorem C02_every_history_strictly_ordered :
          StrictSorted A rank l ->
          exists l' : list A, srun A zero rank l ops = Ret l' /\ StrictSorted A rank l'.
 Proof. exact C02_inv. Qed.
+
+(* non-vacuity: the 6-operation history ex_ops (SAdd 25; SAddAll [7;31;12;18]; SRemove 39; SAdd 44;
+   SRemoveAll [0;99]; SAdd 13) from the empty set and from ex_set; a history with a clear *)
+Example C02_every_history_strictly_ordered_example :
+  total_preorder Z coarseZ /\ StrictSorted Z coarseZ ex_set /\
+  srun Z 0%Z coarseZ [] ex_ops = Ret [12; 25; 44]%Z /\ StrictSorted Z coarseZ [12; 25; 44]%Z /\
+  srun Z 0%Z coarseZ ex_set ex_ops = Ret [17; 25; 48]%Z /\ StrictSorted Z coarseZ [17; 25; 48]%Z /\
+  srun Z 0%Z coarseZ [] ex_ops_clear = Ret [35]%Z /\
+  (exists l' : list Z, srun Z 0%Z coarseZ ex_set ex_ops = Ret l' /\ StrictSorted Z coarseZ l').
+Proof.
+  split; [exact coarseZ_total_preorder|]. split; [apply strict_sortedb_ok; vm_compute; reflexivity|].
+  split; [vm_compute; reflexivity|]. split; [apply strict_sortedb_ok; vm_compute; reflexivity|].
+  split; [vm_compute; reflexivity|]. split; [apply strict_sortedb_ok; vm_compute; reflexivity|]. split; [vm_compute; reflexivity|].
+  exact (C02_every_history_strictly_ordered Z 0%Z coarseZ coarseZ_total_preorder ex_ops ex_set (strict_sortedb_ok Z coarseZ ex_set eq_refl)).
+Qed.
 
 Theorem C02_every_history_is_the_mathematical_set :
   forall (A : Type) (zero : A) (rank : A -> A -> comparison),
@@ -87,6 +190,23 @@ Theorem C02_every_history_is_the_mathematical_set :
          mem A rank x l <-> m = true -> mem A rank x l' <-> spec_member A rank ops x m = true.
 Proof. exact C02_membership. Qed.
 
+(* non-vacuity: from ex_set, after ex_ops the members are exactly those of the mathematical set; e.g.
+   19 (equal to the initial 17) is a member, 33 is not (31 was removed through its equal 39) *)
+Example C02_every_history_is_the_mathematical_set_example :
+  total_preorder Z coarseZ /\ StrictSorted Z coarseZ ex_set /\
+  srun Z 0%Z coarseZ ex_set ex_ops = Ret [17; 25; 48]%Z /\
+  (forall x : Z, mem Z coarseZ x [17; 25; 48]%Z <->
+                 spec_member Z coarseZ ex_ops x (memb coarseZ x ex_set) = true) /\
+  spec_member Z coarseZ ex_ops 19%Z (memb coarseZ 19%Z ex_set) = true /\
+  spec_member Z coarseZ ex_ops 33%Z (memb coarseZ 33%Z ex_set) = false.
+Proof.
+  split; [exact coarseZ_total_preorder|]. split; [apply strict_sortedb_ok; vm_compute; reflexivity|].
+  split; [vm_compute; reflexivity|]. split; [|split; vm_compute; reflexivity].
+  intros x. apply (C02_every_history_is_the_mathematical_set Z 0%Z coarseZ coarseZ_total_preorder ex_ops ex_set [17; 25; 48]%Z (strict_sortedb_ok Z coarseZ ex_set eq_refl)).
+  - vm_compute; reflexivity.
+  - symmetry. apply memb_ok.
+Qed.
+
 Theorem C02_from_empty :
   forall (A : Type) (zero : A) (rank : A -> A -> comparison),
          total_preorder A rank ->
@@ -95,6 +215,16 @@ Theorem C02_from_empty :
          forall x : A, mem A rank x l' <-> spec_member A rank ops x false = true.
 Proof. exact C02_membership_empty. Qed.
 
+(* non-vacuity: 7 was added and later removed through its equal 0; 49 is a member through 44 *)
+Example C02_from_empty_example :
+  total_preorder Z coarseZ /\ srun Z 0%Z coarseZ [] ex_ops = Ret [12; 25; 44]%Z /\
+  (forall x : Z, mem Z coarseZ x [12; 25; 44]%Z <-> spec_member Z coarseZ ex_ops x false = true) /\
+  spec_member Z coarseZ ex_ops 49%Z false = true /\ spec_member Z coarseZ ex_ops 7%Z false = false.
+Proof.
+  split; [exact coarseZ_total_preorder|]. split; [vm_compute; reflexivity|]. split; [|split; vm_compute; reflexivity].
+  apply (C02_from_empty Z 0%Z coarseZ coarseZ_total_preorder ex_ops). vm_compute; reflexivity.
+Qed.
+
 Theorem C02_contains_value :
   forall (A : Type) (zero : A) (rank : A -> A -> comparison),
          total_preorder A rank ->
@@ -102,6 +232,16 @@ Theorem C02_contains_value :
          StrictSorted A rank l ->
          exists b : bool, set_contains zero rank l v = Ret b /\ (b = true <-> mem A rank v l).
 Proof. exact set_contains_spec. Qed.
+
+Example C02_contains_value_example :
+  total_preorder Z coarseZ /\ StrictSorted Z coarseZ ex_set /\
+  set_contains 0%Z coarseZ ex_set 39%Z = Ret true /\ set_contains 0%Z coarseZ ex_set 25%Z = Ret false /\
+  (exists b : bool, set_contains 0%Z coarseZ ex_set 39%Z = Ret b /\ (b = true <-> mem Z coarseZ 39%Z ex_set)).
+Proof.
+  split; [exact coarseZ_total_preorder|]. split; [apply strict_sortedb_ok; vm_compute; reflexivity|].
+  split; [vm_compute; reflexivity|]. split; [vm_compute; reflexivity|].
+  exact (C02_contains_value Z 0%Z coarseZ coarseZ_total_preorder ex_set 39%Z (strict_sortedb_ok Z coarseZ ex_set eq_refl)).
+Qed.
 
 Theorem C02_get_index_agrees_with_order :
   forall (A : Type) (zero : A) (rank : A -> A -> comparison),
@@ -115,6 +255,19 @@ Theorem C02_get_index_agrees_with_order :
            (forall k : nat, k < length l -> rank v (nth k l zero) = Eq -> n = S k).
 Proof. exact set_get_index_spec. Qed.
 
+(* non-vacuity: GetIndex(39) = 3 and GetValue(3) = 31 ranks equal to 39; GetIndex(25) = 0 *)
+Example C02_get_index_agrees_with_order_example :
+  total_preorder Z coarseZ /\ StrictSorted Z coarseZ ex_set /\
+  set_get_index 0%Z coarseZ ex_set 39%Z = Ret 3 /\ coarseZ 39%Z (nth 2 ex_set 0%Z) = Eq /\
+  set_get_index 0%Z coarseZ ex_set 25%Z = Ret 0 /\
+  (exists n : nat, set_get_index 0%Z coarseZ ex_set 25%Z = Ret n /\ (n = 0 <-> ~ mem Z coarseZ 25%Z ex_set)).
+Proof.
+  split; [exact coarseZ_total_preorder|]. split; [apply strict_sortedb_ok; vm_compute; reflexivity|].
+  split; [vm_compute; reflexivity|]. split; [vm_compute; reflexivity|]. split; [vm_compute; reflexivity|].
+  destruct (C02_get_index_agrees_with_order Z 0%Z coarseZ coarseZ_total_preorder ex_set 25%Z (strict_sortedb_ok Z coarseZ ex_set eq_refl)) as [n [E [Z0 _]]].
+  exists n. auto.
+Qed.
+
 Theorem C02_contains_any :
   forall (A : Type) (zero : A) (rank : A -> A -> comparison),
          total_preorder A rank ->
@@ -125,6 +278,18 @@ Theorem C02_contains_any :
            (b = true <-> (exists v : A, In v vs /\ mem A rank v l)).
 Proof. exact set_contains_any_spec. Qed.
 
+Example C02_contains_any_example :
+  total_preorder Z coarseZ /\ StrictSorted Z coarseZ ex_set /\
+  set_contains_any 0%Z coarseZ ex_set [25; 60; 39]%Z = Ret true /\
+  set_contains_any 0%Z coarseZ ex_set [25; 60]%Z = Ret false /\
+  (exists b : bool, set_contains_any 0%Z coarseZ ex_set [25; 60]%Z = Ret b /\
+     (b = true <-> (exists v : Z, In v [25; 60]%Z /\ mem Z coarseZ v ex_set))).
+Proof.
+  split; [exact coarseZ_total_preorder|]. split; [apply strict_sortedb_ok; vm_compute; reflexivity|].
+  split; [vm_compute; reflexivity|]. split; [vm_compute; reflexivity|].
+  exact (C02_contains_any Z 0%Z coarseZ coarseZ_total_preorder ex_set [25; 60]%Z (strict_sortedb_ok Z coarseZ ex_set eq_refl)).
+Qed.
+
 Theorem C02_contains_all :
   forall (A : Type) (zero : A) (rank : A -> A -> comparison),
          total_preorder A rank ->
@@ -134,6 +299,283 @@ Theorem C02_contains_all :
            set_contains_all zero rank l vs = Ret b /\
            (b = true <-> (forall v : A, In v vs -> mem A rank v l)).
 Proof. exact set_contains_all_spec. Qed.
+
+Example C02_contains_all_example :
+  total_preorder Z coarseZ /\ StrictSorted Z coarseZ ex_set /\
+  set_contains_all 0%Z coarseZ ex_set [39; 10; 5]%Z = Ret true /\
+  set_contains_all 0%Z coarseZ ex_set [39; 25]%Z = Ret false /\
+  (exists b : bool, set_contains_all 0%Z coarseZ ex_set [39; 10; 5]%Z = Ret b /\
+     (b = true <-> (forall v : Z, In v [39; 10; 5]%Z -> mem Z coarseZ v ex_set))).
+Proof.
+  split; [exact coarseZ_total_preorder|]. split; [apply strict_sortedb_ok; vm_compute; reflexivity|].
+  split; [vm_compute; reflexivity|]. split; [vm_compute; reflexivity|].
+  exact (C02_contains_all Z 0%Z coarseZ coarseZ_total_preorder ex_set [39; 10; 5]%Z (strict_sortedb_ok Z coarseZ ex_set eq_refl)).
+Qed.
+
+Theorem C02_default_collator_search_found :
+  forall (M : nat) (zero : U M),
+         forall (l : list (U M)) (v : (U M)) (k : nat),
+         StrictSorted (U M) (rkU M) l ->
+         find_index zero (rkU M) l v = Ret (k, true) ->
+         1 <= k <= length l /\ (rkU M) v (nth (k - 1) l zero) = Eq.
+Proof. exact dc_search_found. Qed.
+
+Theorem C02_default_collator_search_absent :
+  forall (M : nat) (zero : U M),
+         forall (l : list (U M)) (v : (U M)) (s : nat),
+         StrictSorted (U M) (rkU M) l ->
+         find_index zero (rkU M) l v = Ret (s, false) ->
+         s <= length l /\
+         (forall j : nat, j < s -> (rkU M) (nth j l zero) v = Lt) /\
+         (forall j : nat, s <= j < length l -> (rkU M) v (nth j l zero) = Lt).
+Proof. exact dc_search_absent. Qed.
+
+Theorem C02_default_collator_search_iff_member :
+  forall (M : nat) (zero : U M),
+         forall (l : list (U M)) (v : (U M)),
+         StrictSorted (U M) (rkU M) l ->
+         mem (U M) (rkU M) v l <-> (exists k : nat, find_index zero (rkU M) l v = Ret (k, true)).
+Proof. exact dc_search_iff_member. Qed.
+
+Theorem C02_default_collator_add :
+  forall (M : nat) (zero : U M),
+         forall (l : list (U M)) (v : (U M)),
+         StrictSorted (U M) (rkU M) l ->
+         exists l' : list (U M),
+           set_add zero (rkU M) l v = Ret l' /\
+           StrictSorted (U M) (rkU M) l' /\
+           (forall x : (U M), mem (U M) (rkU M) x l' <-> equiv (U M) (rkU M) x v \/ mem (U M) (rkU M) x l) /\
+           (mem (U M) (rkU M) v l -> l' = l) /\ (~ mem (U M) (rkU M) v l -> Permutation.Permutation l' (v :: l)).
+Proof. exact dc_add. Qed.
+
+Theorem C02_default_collator_remove :
+  forall (M : nat) (zero : U M),
+         forall (l : list (U M)) (v : (U M)),
+         StrictSorted (U M) (rkU M) l ->
+         exists l' : list (U M),
+           set_remove zero (rkU M) l v = Ret l' /\
+           StrictSorted (U M) (rkU M) l' /\
+           (forall x : (U M), mem (U M) (rkU M) x l' <-> mem (U M) (rkU M) x l /\ ~ equiv (U M) (rkU M) x v) /\
+           (forall y : (U M), In y l' -> In y l) /\ (~ mem (U M) (rkU M) v l -> l' = l).
+Proof. exact dc_remove. Qed.
+
+Theorem C02_default_collator_equal_ranked_stored_once :
+  forall (M : nat) (zero : U M),
+         forall (l : list (U M)) (i j : nat),
+         StrictSorted (U M) (rkU M) l ->
+         i < length l -> j < length l -> (rkU M) (nth i l zero) (nth j l zero) = Eq -> i = j.
+Proof. exact dc_stored_once. Qed.
+
+Theorem C02_default_collator_every_history_strictly_ordered :
+  forall (M : nat) (zero : U M),
+         forall (ops : list (sop (U M))) (l : list (U M)),
+         StrictSorted (U M) (rkU M) l ->
+         exists l' : list (U M), srun (U M) zero (rkU M) l ops = Ret l' /\ StrictSorted (U M) (rkU M) l'.
+Proof. exact dc_history_strictly_ordered. Qed.
+
+(* non-vacuity for the default-collator theorems: a set of Go ints 3, 7, 20 (universe members at depth
+   limit 5) ordered by the real ranking; adding 10 inserts it, adding 7 again changes nothing, and a
+   history over it keeps the order *)
+Example C02_default_collator_example :
+  StrictSorted (U 5) (rkU 5) [u_int 5 3; u_int 5 7; u_int 5 20] /\
+  set_add (u_nil 5) (rkU 5) [u_int 5 3; u_int 5 7; u_int 5 20] (u_int 5 10)
+    = Ret [u_int 5 3; u_int 5 7; u_int 5 10; u_int 5 20] /\
+  set_add (u_nil 5) (rkU 5) [u_int 5 3; u_int 5 7; u_int 5 20] (u_int 5 7)
+    = Ret [u_int 5 3; u_int 5 7; u_int 5 20] /\
+  srun (U 5) (u_nil 5) (rkU 5) [u_int 5 3; u_int 5 7; u_int 5 20]
+       [SAdd _ (u_int 5 10); SRemoveAll _ [u_int 5 3; u_int 5 4]; SAddAll _ [u_str 5 [97; 98]%Z; u_int 5 (-1)]]
+    = Ret [u_int 5 (-1); u_int 5 7; u_int 5 10; u_int 5 20; u_str 5 [97; 98]%Z] /\
+  (exists l' : list (U 5),
+     srun (U 5) (u_nil 5) (rkU 5) [u_int 5 3; u_int 5 7; u_int 5 20]
+       [SAdd _ (u_int 5 10); SRemoveAll _ [u_int 5 3; u_int 5 4]; SAddAll _ [u_str 5 [97; 98]%Z; u_int 5 (-1)]] = Ret l' /\
+     StrictSorted (U 5) (rkU 5) l').
+Proof.
+  assert (S : StrictSorted (U 5) (rkU 5) [u_int 5 3; u_int 5 7; u_int 5 20]) by (apply strict_sortedb_ok; vm_compute; reflexivity).
+  split; [exact S|]. split; [vm_compute; reflexivity|]. split; [vm_compute; reflexivity|]. split; [vm_compute; reflexivity|].
+  exact (C02_default_collator_every_history_strictly_ordered 5 (u_nil 5) _ _ S).
+Qed.
+
+Theorem C02_default_collator_every_history_is_the_mathematical_set :
+  forall (M : nat) (zero : U M),
+         forall (ops : list (sop (U M))) (l l' : list (U M)),
+         StrictSorted (U M) (rkU M) l ->
+         srun (U M) zero (rkU M) l ops = Ret l' ->
+         forall (x : (U M)) (m : bool),
+         mem (U M) (rkU M) x l <-> m = true -> mem (U M) (rkU M) x l' <-> spec_member (U M) (rkU M) ops x m = true.
+Proof. exact dc_history_membership. Qed.
+
+Theorem C02_default_collator_from_empty :
+  forall (M : nat) (zero : U M),
+         forall (ops : list (sop (U M))) (l' : list (U M)),
+         srun (U M) zero (rkU M) [] ops = Ret l' ->
+         forall x : (U M), mem (U M) (rkU M) x l' <-> spec_member (U M) (rkU M) ops x false = true.
+Proof. exact dc_from_empty. Qed.
+
+Theorem C02_default_collator_contains_value :
+  forall (M : nat) (zero : U M),
+         forall (l : list (U M)) (v : (U M)),
+         StrictSorted (U M) (rkU M) l ->
+         exists b : bool, set_contains zero (rkU M) l v = Ret b /\ (b = true <-> mem (U M) (rkU M) v l).
+Proof. exact dc_contains_value. Qed.
+
+Theorem C02_default_collator_get_index_agrees_with_order :
+  forall (M : nat) (zero : U M),
+         forall (l : list (U M)) (v : (U M)),
+         StrictSorted (U M) (rkU M) l ->
+         exists n : nat,
+           set_get_index zero (rkU M) l v = Ret n /\
+           (n = 0 <-> ~ mem (U M) (rkU M) v l) /\
+           (forall k : nat, n = S k -> k < length l /\ (rkU M) v (nth k l zero) = Eq) /\
+           (forall k : nat, k < length l -> (rkU M) v (nth k l zero) = Eq -> n = S k).
+Proof. exact dc_get_index. Qed.
+
+Theorem C02_default_collator_contains_any :
+  forall (M : nat) (zero : U M),
+         forall l vs : list (U M),
+         StrictSorted (U M) (rkU M) l ->
+         exists b : bool,
+           set_contains_any zero (rkU M) l vs = Ret b /\
+           (b = true <-> (exists v : (U M), In v vs /\ mem (U M) (rkU M) v l)).
+Proof. exact dc_contains_any. Qed.
+
+Theorem C02_default_collator_contains_all :
+  forall (M : nat) (zero : U M),
+         forall l vs : list (U M),
+         StrictSorted (U M) (rkU M) l ->
+         exists b : bool,
+           set_contains_all zero (rkU M) l vs = Ret b /\
+           (b = true <-> (forall v : (U M), In v vs -> mem (U M) (rkU M) v l)).
+Proof. exact dc_contains_all. Qed.
+
+Theorem C02_raw_default_every_history :
+  forall zero : val, inUd zero ->
+         forall (ops : list (sop val)) (l : list val),
+         Forall sop_inU ops -> Forall inUd l -> StrictSorted val Pool.rk_default l ->
+         exists l' : list val,
+           srun val zero Pool.rk_default l ops = Ret l' /\ Forall inUd l' /\ StrictSorted val Pool.rk_default l' /\
+           (forall (x : val) (m : bool), inUd x -> (mem val Pool.rk_default x l <-> m = true) ->
+              (mem val Pool.rk_default x l' <-> spec_member val Pool.rk_default ops x m = true)).
+Proof. exact raw_history. Qed.
+
+(* non-vacuity: a Set of []int values ([1], [1 2], [3]) under the ranking the pool model executes for the
+   default collator; the history adds [0 9], removes [1] and the absent [7], adds [], [1 2] (duplicate), [2] *)
+Example C02_raw_default_every_history_example :
+  inUd VNilSlice /\ Forall sop_inU ex_raw_ops /\ Forall inUd ex_raw_set /\ StrictSorted val Pool.rk_default ex_raw_set /\
+  srun val VNilSlice Pool.rk_default ex_raw_set ex_raw_ops = Ret [sl []; sl [0; 9]; sl [1; 2]; sl [2]; sl [3]]%Z /\
+  (exists l' : list val, srun val VNilSlice Pool.rk_default ex_raw_set ex_raw_ops = Ret l' /\ Forall inUd l' /\
+     StrictSorted val Pool.rk_default l').
+Proof.
+  assert (Z0 : inUd VNilSlice) by (vm_compute; reflexivity).
+  assert (O : Forall sop_inU ex_raw_ops) by (apply sop_inU_check; vm_compute; reflexivity).
+  assert (I : Forall inUd ex_raw_set) by (apply inUd_check; vm_compute; reflexivity).
+  assert (S : StrictSorted val Pool.rk_default ex_raw_set) by (apply strict_sortedb_ok; vm_compute; reflexivity).
+  split; [exact Z0|]. split; [exact O|]. split; [exact I|]. split; [exact S|]. split; [vm_compute; reflexivity|].
+  destruct (C02_raw_default_every_history VNilSlice Z0 ex_raw_ops ex_raw_set O I S) as [l' [E [I' [S' _]]]].
+  exists l'. auto.
+Qed.
+
+Theorem C02_raw_default_add :
+  forall zero : val, inUd zero ->
+         forall (l : list val) (v : val),
+         Forall inUd l -> inUd v -> StrictSorted val Pool.rk_default l ->
+         exists l' : list val,
+           set_add zero Pool.rk_default l v = Ret l' /\ Forall inUd l' /\ StrictSorted val Pool.rk_default l' /\
+           (forall x : val, inUd x -> (mem val Pool.rk_default x l' <-> equiv val Pool.rk_default x v \/ mem val Pool.rk_default x l)) /\
+           (mem val Pool.rk_default v l -> l' = l) /\ (~ mem val Pool.rk_default v l -> Permutation.Permutation l' (v :: l)).
+Proof. exact raw_add. Qed.
+
+Example C02_raw_default_add_example :
+  Forall inUd ex_raw_set /\ inUd (sl [2]%Z) /\ StrictSorted val Pool.rk_default ex_raw_set /\
+  set_add VNilSlice Pool.rk_default ex_raw_set (sl [2]%Z) = Ret [sl [1]; sl [1; 2]; sl [2]; sl [3]]%Z.
+Proof.
+  split; [apply inUd_check; vm_compute; reflexivity|]. split; [vm_compute; reflexivity|].
+  split; [apply strict_sortedb_ok; vm_compute; reflexivity|]. vm_compute; reflexivity.
+Qed.
+
+Theorem C02_raw_default_remove :
+  forall zero : val, inUd zero ->
+         forall (l : list val) (v : val),
+         Forall inUd l -> inUd v -> StrictSorted val Pool.rk_default l ->
+         exists l' : list val,
+           set_remove zero Pool.rk_default l v = Ret l' /\ Forall inUd l' /\ StrictSorted val Pool.rk_default l' /\
+           (forall x : val, inUd x -> (mem val Pool.rk_default x l' <-> mem val Pool.rk_default x l /\ ~ equiv val Pool.rk_default x v)) /\
+           (forall y : val, In y l' -> In y l) /\ (~ mem val Pool.rk_default v l -> l' = l).
+Proof. exact raw_remove. Qed.
+
+Theorem C02_raw_default_get_index :
+  forall zero : val, inUd zero ->
+         forall (l : list val) (v : val),
+         Forall inUd l -> inUd v -> StrictSorted val Pool.rk_default l ->
+         exists n : nat,
+           set_get_index zero Pool.rk_default l v = Ret n /\
+           (n = 0 <-> ~ mem val Pool.rk_default v l) /\
+           (forall k : nat, n = S k -> k < length l /\ Pool.rk_default v (nth k l zero) = Eq) /\
+           (forall k : nat, k < length l -> Pool.rk_default v (nth k l zero) = Eq -> n = S k).
+Proof. exact raw_get_index. Qed.
+
+Theorem C02_raw_default_contains_value :
+  forall zero : val, inUd zero ->
+         forall (l : list val) (v : val),
+         Forall inUd l -> inUd v -> StrictSorted val Pool.rk_default l ->
+         exists b : bool, set_contains zero Pool.rk_default l v = Ret b /\ (b = true <-> mem val Pool.rk_default v l).
+Proof. exact raw_contains. Qed.
+
+Theorem C02_get_index_agrees_with_get_value :
+  forall (A : Type) (zero : A) (rank : A -> A -> comparison),
+         total_preorder A rank ->
+         forall (l : list A) (v : A),
+         StrictSorted A rank l ->
+         exists n : nat,
+           set_get_index zero rank l v = Ret n /\
+           (n = 0 <-> ~ mem A rank v l) /\
+           (0 < n -> exists w : A, get_value zero l (Z.of_nat n) = Ret w /\ rank v w = Eq) /\
+           (forall (k : nat) (w : A), get_value zero l (Z.of_nat (S k)) = Ret w -> rank v w = Eq -> n = S k).
+Proof. exact get_index_agrees_with_get_value. Qed.
+
+(* non-vacuity: GetIndex(39) = 3 and GetValue(3) returns 31, which ranks equal to 39 *)
+Example C02_get_index_agrees_with_get_value_example :
+  total_preorder Z coarseZ /\ StrictSorted Z coarseZ ex_set /\
+  set_get_index 0%Z coarseZ ex_set 39%Z = Ret 3 /\ get_value 0%Z ex_set 3%Z = Ret 31%Z /\ coarseZ 39%Z 31%Z = Eq /\
+  get_value 0%Z ex_set (-2)%Z = Ret 31%Z.
+Proof.
+  split; [exact coarseZ_total_preorder|]. split; [apply strict_sortedb_ok; vm_compute; reflexivity|].
+  repeat split; vm_compute; reflexivity.
+Qed.
+
+Theorem C02_default_collator_get_index_agrees_with_get_value :
+  forall (M : nat) (zero : U M),
+         forall (l : list (U M)) (v : (U M)),
+         StrictSorted (U M) (rkU M) l ->
+         exists n : nat,
+           set_get_index zero (rkU M) l v = Ret n /\
+           (n = 0 <-> ~ mem (U M) (rkU M) v l) /\
+           (0 < n -> exists w : (U M), get_value zero l (Z.of_nat n) = Ret w /\ (rkU M) v w = Eq) /\
+           (forall (k : nat) (w : (U M)), get_value zero l (Z.of_nat (S k)) = Ret w -> (rkU M) v w = Eq -> n = S k).
+Proof. exact dc_get_index_get_value. Qed.
+
+Theorem C02_default_collator_reversed_history_strictly_ordered :
+  forall (M : nat) (zero : U M),
+         forall (ops : list (sop (U M))) (l : list (U M)),
+         StrictSorted (U M) (fun a b : U M => rkU M b a) l ->
+         exists l' : list (U M), srun (U M) zero (fun a b : U M => rkU M b a) l ops = Ret l' /\ StrictSorted (U M) (fun a b : U M => rkU M b a) l'.
+Proof. exact dc_rev_history_strictly_ordered. Qed.
+
+(* non-vacuity: the reversed default ranking keeps Go ints in descending order *)
+Example C02_default_collator_reversed_example :
+  StrictSorted (U 5) (fun a b => rkU 5 b a) [u_int 5 20; u_int 5 7; u_int 5 3] /\
+  srun (U 5) (u_nil 5) (fun a b => rkU 5 b a) [u_int 5 20; u_int 5 7; u_int 5 3]
+       [SAdd _ (u_int 5 10); SRemove _ (u_int 5 3); SAdd _ (u_int 5 7)]
+    = Ret [u_int 5 20; u_int 5 10; u_int 5 7].
+Proof. split; [apply strict_sortedb_ok; vm_compute; reflexivity|vm_compute; reflexivity]. Qed.
+
+Theorem C02_default_collator_reversed_history_is_the_mathematical_set :
+  forall (M : nat) (zero : U M),
+         forall (ops : list (sop (U M))) (l l' : list (U M)),
+         StrictSorted (U M) (fun a b : U M => rkU M b a) l ->
+         srun (U M) zero (fun a b : U M => rkU M b a) l ops = Ret l' ->
+         forall (x : (U M)) (m : bool),
+         mem (U M) (fun a b : U M => rkU M b a) x l <-> m = true -> mem (U M) (fun a b : U M => rkU M b a) x l' <-> spec_member (U M) (fun a b : U M => rkU M b a) ops x m = true.
+Proof. exact dc_rev_history_membership. Qed.
 
 
 Print Assumptions C02_search_terminates_for_every_ranker.
@@ -150,3 +592,25 @@ Print Assumptions C02_contains_value.
 Print Assumptions C02_get_index_agrees_with_order.
 Print Assumptions C02_contains_any.
 Print Assumptions C02_contains_all.
+Print Assumptions C02_default_collator_search_found.
+Print Assumptions C02_default_collator_search_absent.
+Print Assumptions C02_default_collator_search_iff_member.
+Print Assumptions C02_default_collator_add.
+Print Assumptions C02_default_collator_remove.
+Print Assumptions C02_default_collator_equal_ranked_stored_once.
+Print Assumptions C02_default_collator_every_history_strictly_ordered.
+Print Assumptions C02_default_collator_every_history_is_the_mathematical_set.
+Print Assumptions C02_default_collator_from_empty.
+Print Assumptions C02_default_collator_contains_value.
+Print Assumptions C02_default_collator_get_index_agrees_with_order.
+Print Assumptions C02_default_collator_contains_any.
+Print Assumptions C02_default_collator_contains_all.
+Print Assumptions C02_raw_default_every_history.
+Print Assumptions C02_raw_default_add.
+Print Assumptions C02_raw_default_remove.
+Print Assumptions C02_raw_default_get_index.
+Print Assumptions C02_raw_default_contains_value.
+Print Assumptions C02_get_index_agrees_with_get_value.
+Print Assumptions C02_default_collator_get_index_agrees_with_get_value.
+Print Assumptions C02_default_collator_reversed_history_strictly_ordered.
+Print Assumptions C02_default_collator_reversed_history_is_the_mathematical_set.
